@@ -679,11 +679,15 @@ type probeStore struct {
 	injKind string
 	injOrd  int
 	seen    map[string]int
+	// cancel the CALLER's context right after the cancelOrd-th call of kind cancelKind returned
+	cancel     context.CancelFunc
+	cancelKind string
+	cancelOrd  int
 }
 
 var errInjected = errors.New("verif: injected store failure")
 
-func (s *probeStore) rec(kind, node, id string, count int, ident string, f func() error) error {
+func (s *probeStore) rec(ctx context.Context, kind, node, id string, count int, ident string, f func() error) error {
 	s.mu.Lock()
 	defer s.mu.Unlock()
 	if !s.on {
@@ -699,10 +703,17 @@ func (s *probeStore) rec(kind, node, id string, count int, ident string, f func(
 	if kind == "CAdd" {
 		s.cp.arm(id, fmt.Sprintf("/processing/%s/%s/%s/%s", app, entry, node, ident))
 	}
-	if s.injKind == kind && s.injOrd == ord {
+	switch {
+	case s.injKind == kind && s.injOrd == ord:
 		c.Inj = true
 		err = errInjected
-	} else {
+	case ctx.Err() != nil && kind != "CDelProc":
+		// the caller's context is already cancelled: the call fails before it executes (fail-before, like an
+		// injected failure).  NOT for DeleteProcessing: the clean-up must not depend on the caller's context,
+		// a deletion issued with a dead context goes to the real store and its failure is not excused
+		c.Inj = true
+		err = ctx.Err()
+	default:
 		err = f()
 	}
 	s.intra = append(s.intra, s.cp.disarm())
@@ -712,23 +723,26 @@ func (s *probeStore) rec(kind, node, id string, count int, ident string, f func(
 	}
 	s.calls = append(s.calls, c)
 	s.probes = append(s.probes, s.pr.take())
+	if s.cancel != nil && s.cancelKind == kind && s.cancelOrd == ord {
+		s.cancel()
+	}
 	return err
 }
 
 func (s *probeStore) CreateProcessing(ctx context.Context, p *types.Processing, count int) error {
-	return s.rec("CCreateProc", p.Nodename, "", count, p.Ident, func() error { return s.Store.CreateProcessing(ctx, p, count) })
+	return s.rec(ctx, "CCreateProc", p.Nodename, "", count, p.Ident, func() error { return s.Store.CreateProcessing(ctx, p, count) })
 }
 func (s *probeStore) DeleteProcessing(ctx context.Context, p *types.Processing) error {
-	return s.rec("CDelProc", p.Nodename, "", 0, p.Ident, func() error { return s.Store.DeleteProcessing(ctx, p) })
+	return s.rec(ctx, "CDelProc", p.Nodename, "", 0, p.Ident, func() error { return s.Store.DeleteProcessing(ctx, p) })
 }
 func (s *probeStore) AddWorkload(ctx context.Context, wl *types.Workload, p *types.Processing) error {
 	if p == nil {
 		return s.Store.AddWorkload(ctx, wl, p)
 	}
-	return s.rec("CAdd", wl.Nodename, wl.ID, 0, p.Ident, func() error { return s.Store.AddWorkload(ctx, wl, p) })
+	return s.rec(ctx, "CAdd", wl.Nodename, wl.ID, 0, p.Ident, func() error { return s.Store.AddWorkload(ctx, wl, p) })
 }
 func (s *probeStore) RemoveWorkload(ctx context.Context, wl *types.Workload) error {
-	return s.rec("CRemove", wl.Nodename, wl.ID, 0, "", func() error { return s.Store.RemoveWorkload(ctx, wl) })
+	return s.rec(ctx, "CRemove", wl.Nodename, wl.ID, 0, "", func() error { return s.Store.RemoveWorkload(ctx, wl) })
 }
 
 func deployStream(t *testing.T) {
@@ -764,7 +778,9 @@ func deployStream(t *testing.T) {
 			// the first two deployments of every world: FILL 1 instance on one node, then FILL 1 instance on two
 			// nodes: the node filled before is selected again with 0 instances to deploy (a zero-count plan entry)
 			fillCorpus := dep < 2
-			faultKind := rng.Intn(9)
+			faultKind := rng.Intn(11)
+			callerCtx, callerCancel := context.WithCancel(w.Ctx)
+			ps.cancel, ps.cancelKind, ps.cancelOrd = nil, "", 0
 			if fillCorpus {
 				faultKind = 8
 			}
@@ -784,6 +800,15 @@ func deployStream(t *testing.T) {
 			case 6:
 				w.IC.SetFault(&cw.Addr{Method: "VirtualizationStart", Target: "*", Ord: rng.Intn(2)})
 				ps.injKind, ps.injOrd, fault = "CRemove", 0, "VirtualizationStart+RemoveWorkload"
+			case 9, 10:
+				// the caller goes away mid-deployment: its context is cancelled right after one of the deployment's store calls
+				ps.cancel = callerCancel
+				if rng.Intn(2) == 0 {
+					ps.cancelKind, ps.cancelOrd = "CCreateProc", rng.Intn(2)
+				} else {
+					ps.cancelKind, ps.cancelOrd = "CAdd", rng.Intn(2)
+				}
+				fault = "caller-cancelled-after-" + ps.cancelKind
 			}
 			ps.mu.Unlock()
 			opNo++
@@ -806,7 +831,7 @@ func deployStream(t *testing.T) {
 				strategy = "FILL"
 				opts.DeployStrategy, opts.Count, opts.NodesLimit = "FILL", 1, dep+1
 			}
-			ch, err := w.C.CreateWorkload(w.Ctx, opts)
+			ch, err := w.C.CreateWorkload(callerCtx, opts)
 			msgs, failed := 0, 0
 			if err == nil {
 				deadline := time.After(30 * time.Second)
@@ -827,6 +852,7 @@ func deployStream(t *testing.T) {
 				}
 			}
 			w.Quiesce()
+			callerCancel()
 			ps.mu.Lock()
 			ps.on = false
 			calls, probes, intra, ident := append([]call{}, ps.calls...), append([]probe{}, ps.probes...), append([][]probe{}, ps.intra...), ps.ident
